@@ -24,20 +24,29 @@
 (*     content of the whole parsed changelog (has = FALSE: not recorded    *)
 (*     for this prefix).  wf: the text was produced by the deb-changelog(5)*)
 (*     generator without mutation (C04 domain).                            *)
-(*  [kind |-> "edit", aea, lines, bl0, ops]                                *)
+(*  [kind |-> "edit", aea, wf, lines, bl0, ops]                            *)
 (*     lines as above (only c, v, h used): the text parsed first, bl0 the  *)
-(*     blocks the real parser produced for it;                             *)
-(*     ops[i] = [op, v, ok, fmt, nf, bl]: the editing call, its interned   *)
-(*     arguments, and after it: ok no unexpected exception (from the call  *)
-(*     or from str()), str() succeeded, the fixpoint law held,             *)
-(*     the interned (package, version, distributions, urgency, changes,    *)
-(*     author, date) of every block.                                       *)
+(*     blocks the real parser produced for it; wf: the text is well-formed *)
+(*     and every call keeps it so (C04 domain).                            *)
+(*     ops[i] = [op, i, x, v, ok, fobs, fmt, nf, out, bl]: one call --     *)
+(*     a Changelog-level editing call (EditOps), a call on block i through *)
+(*     the block object (BSet attribute x, in-place ChAppend / ChInsert /  *)
+(*     ChDelete at x / AddTrailing / BRest = other_pairs[k] = v), or       *)
+(*     Fmt = str(block i) -- with interned arguments v, and after it:      *)
+(*     ok no unexpected exception; fobs the changelog (Fmt: the block) was *)
+(*     formatted after the call, then fmt it succeeded, out its lines as   *)
+(*     [c, v, h] from the independent classifier, nf the fixpoint law held;*)
+(*     bl the interned (package, version, distributions, urgency, changes, *)
+(*     author, date) of every block.  Formatting is part of the history:   *)
+(*     an event without fobs leaves the object unformatted.                *)
 (*                                                                         *)
 (* TRACE_MODE = "full": every observable must equal the specification's.   *)
 (* TRACE_MODE = "verdict": only what the property statements promise:      *)
 (*     C15  ok; sr <=> w > 0; fmt => nf (edits: only where Specified);     *)
 (*     C04  (wf traces, at positions where the generator accepts) w = 0,   *)
-(*          ~sr, rt, and all counts / the block contents as written.       *)
+(*          ~sr, rt, and all counts / the block contents as written;       *)
+(*          (wf edit traces) every formatted output = Format of the        *)
+(*          current document.                                              *)
 (* The harness validates in full mode first; traces rejected there are     *)
 (* re-validated in verdict mode: rejected again = violation, otherwise     *)
 (* specification drift (diagnostic).                                       *)
@@ -80,7 +89,7 @@ TInit == /\ tid \in 1..Len(Traces) /\ l = 1 /\ gs = "lead"
          /\ aea = Traces[tid].aea
          /\ P = PInit
          /\ D = IF Traces[tid].kind = "edit" THEN ParseText(TraceText(Traces[tid].lines), aea).doc ELSE EmptyDoc
-         /\ sraised = FALSE /\ text = <<>> /\ gen = GenInit /\ budget = 0 /\ phase = "text" /\ ops = <<>>
+         /\ sraised = FALSE /\ text = <<>> /\ gen = GenInit /\ budget = 0 /\ phase = "text" /\ ops = <<>> /\ rs = RInit
 
 Frame == UNCHANGED <<aea, text, gen, budget, phase, ops, tid>>
 
@@ -106,26 +115,46 @@ TParse ==
          /\ P' = p2 /\ gs' = g2
          /\ sraised' = (sraised \/ Raises(b, P.st, e.c))
          /\ ((Tr.wf /\ g2 = "off") => PrintT(<<"REJECT", tid, l>>))
-   /\ l' = l + 1 /\ D' = D /\ Frame
+   /\ l' = l + 1 /\ D' = D /\ rs' = rs /\ Frame
    /\ (Diag => PrintT(<<"AT", tid, l>>))
    /\ (l' = N + 1 => PrintT(<<"ACCEPTED", tid>>))
 
+\* does the observed output (one [c, v, h] per line, from the independent classifier) equal the reference
+\* text?  A line the formatter composes (header, trailer: id = 0) is compared by content, a line stored
+\* verbatim by its interned text.
+OutMatches(o, t) ==
+   /\ Len(o) = Len(t)
+   /\ \A i \in 1..Len(t) :
+         IF t[i].id = 0 /\ t[i].h # <<>>
+         THEN o[i].h = t[i].h /\ (t[i].c \in EndDetailed => o[i].c = t[i].c)
+         ELSE o[i].v = t[i].id
+
 TEdit ==
    /\ Tr.kind = "edit" /\ l <= N
-   /\ LET e  == Tr.ops[l]
-          d2 == EditApply(D, e.op, e.v)
-      IN /\ EditEnabled(D, e.op)
+   /\ LET e    == Tr.ops[l]
+          old  == e.op \in EditOps
+          op3  == <<e.op, e.i, e.x>>
+          d2   == IF old THEN EditApply(D, e.op, e.v)
+                  ELSE IF e.op = "BRest" THEN [D EXCEPT !.bl[e.i].h[5] = e.v[1]]      \* other_pairs after an in-place edit, as observed
+                  ELSE HApply(D, op3, e.v)
+          en   == IF old THEN EditEnabled(D, e.op)
+                  ELSE IF e.op = "BRest" THEN e.i \in 1..Len(D.bl) ELSE HValid(D, op3)
+          tgt  == IF e.op = "Fmt" THEN e.i ELSE 0                   \* what was formatted after the call: the changelog or block i
+          able == IF tgt = 0 THEN Formattable(d2) ELSE BlockFormattable(d2.bl[tgt])
+          same == e.fobs => (e.fmt = able /\ (able => OutMatches(e.out, RefOut(d2, tgt))))
+      IN /\ en
          /\ D' = d2
          /\ e.ok                                                     \* the call returned; str() returned or said "incomplete"
-         /\ (e.fmt /\ Specified(d2)) => e.nf                         \* C15, histories
-         /\ (~VerdictOnly => (e.fmt = Formattable(d2) /\ e.bl = BlocksProj(d2)))
+         /\ (e.fobs /\ tgt = 0 /\ e.fmt /\ Specified(d2)) => e.nf        \* C15, histories
+         /\ Tr.wf => same                                            \* C04, histories: every output is the reference Format of the CURRENT document
+         /\ (~VerdictOnly => (same /\ e.bl = BlocksProj(d2)))
          /\ ((~VerdictOnly /\ l = 1) => Tr.bl0 = BlocksProj(D))
-   /\ l' = l + 1 /\ UNCHANGED <<P, sraised, gs>> /\ Frame
+   /\ l' = l + 1 /\ UNCHANGED <<P, sraised, gs>> /\ rs' = rs /\ Frame
    /\ (Diag => PrintT(<<"AT", tid, l>>))
    /\ (l' = N + 1 => PrintT(<<"ACCEPTED", tid>>))
 
 \* a trace without events is trivially explained
-TEmpty == /\ N = 0 /\ l = 1 /\ l' = 2 /\ UNCHANGED <<P, D, sraised, gs>> /\ Frame /\ PrintT(<<"ACCEPTED", tid>>)
+TEmpty == /\ N = 0 /\ l = 1 /\ l' = 2 /\ UNCHANGED <<P, D, sraised, gs, rs>> /\ Frame /\ PrintT(<<"ACCEPTED", tid>>)
 
 TNext == TParse \/ TEdit \/ TEmpty
 TSpec == TInit /\ [][TNext]_tvars
